@@ -3,6 +3,7 @@ package main
 // Query construction (quantifier-free after skolemisation / instantiation) and solver racing.
 
 import (
+	"runtime"
 	"bytes"
 	"context"
 	"fmt"
@@ -638,7 +639,20 @@ type solveResult struct {
 
 var solverCPU int64 // microseconds, summed
 
+// solverSlots bounds the number of solver processes running at once (the three-way race
+// would otherwise oversubscribe the machine and turn 1 s queries into timeouts).
+var solverSlots = make(chan struct{}, runtime.NumCPU())
+
 func runSolver(ctx context.Context, sp solverSpec, timeoutS int, file string) solveResult {
+	select {
+	case solverSlots <- struct{}{}:
+	case <-ctx.Done():
+		return solveResult{"unknown", sp.name, 0, "cancelled"}
+	}
+	defer func() { <-solverSlots }()
+	if ctx.Err() != nil {
+		return solveResult{"unknown", sp.name, 0, "cancelled"}
+	}
 	t0 := time.Now()
 	args := sp.args(timeoutS, file)
 	cctx, cancel := context.WithTimeout(ctx, time.Duration(timeoutS+2)*time.Second)
@@ -719,7 +733,7 @@ type Discharger struct {
 func newDischarger(tier string) *Discharger {
 	wd := filepath.Join("/verif/.work", fmt.Sprintf("%d", os.Getpid()))
 	os.MkdirAll(wd, 0o755)
-	d := &Discharger{workdir: wd, quickS: 3, fullS: 60}
+	d := &Discharger{workdir: wd, quickS: 3, fullS: envInt("DVC_FULLS", 60)}
 	if tier == "thorough" {
 		d.fullS = 180
 	}
@@ -729,15 +743,21 @@ func newDischarger(tier string) *Discharger {
 func (d *Discharger) cleanup() { os.RemoveAll(d.workdir) }
 
 func (d *Discharger) prepare(o *Obligation, getValues []*Term) (string, error) {
-	return d.prepareMode(o, getValues, false)
+	t, _, err := d.prepareMode(o, getValues, 0)
+	return t, err
 }
 
-func (d *Discharger) prepareMode(o *Obligation, getValues []*Term, light bool) (string, error) {
-	q, err := buildQuery(o.Hyps, o.Goal, light)
+// prepareMode: 0 = full query; 1 = light (value-level hypotheses dropped, schemas
+// instantiated only at index terms of the goal); 2 = medium (all hypotheses, goal-directed
+// instantiation).  Modes 1 and 2 only ever remove assertions, so unsat carries over.
+// The second result is the same query with nonlinear products abstracted (nlabs.go), or ""
+// when the query has none.
+func (d *Discharger) prepareMode(o *Obligation, getValues []*Term, mode int) (string, string, error) {
+	q, err := buildQuery(o.Hyps, o.Goal, mode == 1)
 	if err != nil {
-		return "", err
+		return "", "", err
 	}
-	q.GoalOnly = light
+	q.GoalOnly = mode != 0
 	t0 := time.Now()
 	insts := instantiate(q)
 	t1 := time.Now()
@@ -748,11 +768,17 @@ func (d *Discharger) prepareMode(o *Obligation, getValues []*Term, light bool) (
 	asserts = append(asserts, ax...)
 	t2 := time.Now()
 	txt := renderQuery(asserts, getValues)
+	uf := ""
+	if getValues == nil && os.Getenv("DVC_NOUF") == "" {
+		if ab, changed := abstractNonlinear(asserts); changed {
+			uf = renderQuery(ab, nil)
+		}
+	}
 	if os.Getenv("DVC_PROF") != "" {
 		fmt.Fprintf(os.Stderr, "prep %s: hyps=%d schemas=%d insts=%d axioms=%d bytes=%d inst=%.2fs ax=%.2fs render=%.2fs\n", o.Name, len(q.Hyps), len(q.Schemas), len(insts), len(ax), len(txt),
 			t1.Sub(t0).Seconds(), t2.Sub(t1).Seconds(), time.Since(t2).Seconds())
 	}
-	return txt, nil
+	return txt, uf, nil
 }
 
 func (d *Discharger) discharge(o *Obligation) {
@@ -775,7 +801,67 @@ func (d *Discharger) discharge(o *Obligation) {
 		o.Result, o.Solver, o.TimeS = r.Result, r.Solver, r.TimeS
 		return
 	}
-	text, err := d.prepare(o, nil)
+	tw := time.Now()
+	// tryUF: the abstraction of nonlinear products decides most value-level goals at once
+	tryUF := func(ut, tag string, budget int) bool {
+		if ut == "" {
+			return false
+		}
+		uid := int(atomic.AddInt64(&d.nq, 1))
+		file := filepath.Join(d.workdir, fmt.Sprintf("u%06d.smt2", uid))
+		if os.WriteFile(file, []byte(ut), 0o644) != nil {
+			return false
+		}
+		defer os.Remove(file)
+		ur := runSolver(context.Background(), solvers[0], budget, file)
+		if ur.Result == "unsat" {
+			o.Result, o.Solver, o.TimeS = "unsat", "z3-5.1 (products abstracted"+tag+")", ur.TimeS
+			if d.keep {
+				o.Query = ut
+			}
+			return true
+		}
+		return false
+	}
+	// Reduced queries first (they only remove assertions, so unsat carries over): light for
+	// scalar/frame goals in large contexts, then goal-directed instantiation; the full
+	// query is only built when those do not decide the obligation.
+	modes := []int{2}
+	if !heavyTerm(o.Goal) && len(o.Hyps) > 120 {
+		modes = []int{1, 2}
+	}
+	var lastReduced string
+	for _, mode := range modes {
+		lt, lu, err := d.prepareMode(o, nil, mode)
+		if err != nil {
+			continue
+		}
+		tag := ", light"
+		if mode == 2 {
+			tag = ", goal-directed"
+			lastReduced = lt
+		}
+		if tryUF(lu, tag, d.quickS) {
+			return
+		}
+		lid := int(atomic.AddInt64(&d.nq, 1))
+		lr := solve(d.workdir, lid, lt, d.quickS, 8)
+		if lr.Result == "unsat" {
+			o.Result, o.Solver, o.TimeS = lr.Result, lr.Solver+" ("+tag[2:]+")", lr.TimeS
+			if d.keep {
+				o.Query = lt
+			}
+			return
+		}
+		if dd := os.Getenv("DVC_LIGHT_DUMP"); dd != "" {
+			os.MkdirAll(dd, 0o755)
+			os.WriteFile(filepath.Join(dd, fmt.Sprintf("%s_%d.mode%d.smt2", mangle(o.Name), o.PathID, mode)), []byte(lt), 0o644)
+			if lu != "" {
+				os.WriteFile(filepath.Join(dd, fmt.Sprintf("%s_%d.mode%d.uf.smt2", mangle(o.Name), o.PathID, mode)), []byte(lu), 0o644)
+			}
+		}
+	}
+	text, uf, err := d.prepareMode(o, nil, 0)
 	if err != nil {
 		o.Result = "error"
 		o.Solver = err.Error()
@@ -787,23 +873,9 @@ func (d *Discharger) discharge(o *Obligation) {
 		o.Solver = fmt.Sprintf("query too large (%d bytes)", len(text))
 		return
 	}
-	tw := time.Now()
-	if len(text) > 120_000 && !heavyTerm(o.Goal) {
-		// big query, scalar/frame goal: first try without the value-level hypotheses
-		if lt, err := d.prepareMode(o, nil, true); err == nil && len(lt) < len(text)/2 {
-			lid := int(atomic.AddInt64(&d.nq, 1))
-			lr := solve(d.workdir, lid, lt, d.quickS, 10)
-			if lr.Result == "unsat" {
-				o.Result, o.Solver, o.TimeS = lr.Result, lr.Solver+" (light)", lr.TimeS
-				if d.keep {
-					o.Query = lt
-				}
-				return
-			}
-			if dd := os.Getenv("DVC_LIGHT_DUMP"); dd != "" {
-				os.MkdirAll(dd, 0o755)
-				os.WriteFile(filepath.Join(dd, fmt.Sprintf("%s_%d.light.smt2", mangle(o.Name), o.PathID)), []byte(lt), 0o644)
-			}
+	if text != lastReduced {
+		if tryUF(uf, "", d.quickS) {
+			return
 		}
 	}
 	r := solve(d.workdir, id, text, d.quickS, d.fullS)
